@@ -12,7 +12,7 @@ from typing import Any, Dict, List, Optional
 from .rt import Ctl, SyncInterpreter
 from .tla import Rec
 
-from xstate_statemachine.actions import resolve_builtin, RAISE, ASSIGN  # noqa: E402
+from xstate_statemachine.actions import resolve_builtin, RAISE, ASSIGN, CHOOSE  # noqa: E402
 from xstate_statemachine.models import GuardDefinition, MachineNode, StateNode  # noqa: E402
 
 NONE = "NONE"
@@ -47,6 +47,33 @@ def guard_rec(g: Optional[GuardDefinition], guard_names: set) -> Rec:
     return Rec(op="atom", name=g.type, vk=vk, kids=[], arg=[])
 
 
+def norm_guard(raw) -> Rec:
+    """The guard a RAW transition config denotes, computed without the library (every documented
+    operand spelling; `cond` is handled by the caller).  Used as D.trans[t].wantGuard."""
+    if raw is None:
+        return Rec(op="none", name="", vk="", kids=[], arg=[])
+    if isinstance(raw, str):
+        return Rec(op="atom", name=raw, vk=raw, kids=[], arg=[])
+    t = raw.get("type")
+    params = raw.get("params")
+    if t in ("and", "or", "not"):
+        kids = raw.get("children") or []
+        if not kids and isinstance(params, dict):
+            kids = params.get("guards") or params.get("children") or []
+            if not kids and params.get("guard") is not None:
+                kids = [params["guard"]]
+        return Rec(op=t, name=t, vk="", kids=[norm_guard(k) for k in kids], arg=[])
+    if t == "stateIn":
+        target = None
+        if isinstance(params, dict):
+            target = params.get("state", params.get("value"))
+        elif isinstance(params, str):
+            target = params
+        arg = (target[1:] if target.startswith("#") else target).split(".") if isinstance(target, str) and target else []
+        return Rec(op="stateIn", name="stateIn", vk="stateIn", kids=[], arg=arg)
+    return Rec(op="atom", name=t, vk=guard_vk(t, params), kids=[], arg=[])
+
+
 def guard_vk(name: str, params) -> str:
     """Key of the guard valuation: name, or name:<k> for params {"k": ...} (harness convention)."""
     if isinstance(params, dict) and "k" in params and isinstance(params["k"], str):
@@ -54,9 +81,21 @@ def guard_vk(name: str, params) -> str:
     return name
 
 
-def action_rec(a, out_tag) -> Rec:
+def action_rec(a, out_tag, guard_names=None) -> Rec:
+    from xstate_statemachine.models import ActionDefinition
+
     canon = resolve_builtin(a.type)
     params = a.params if isinstance(a.params, dict) else {}
+    if canon == CHOOSE:
+        gn = guard_names if guard_names is not None else set()
+        branches = []
+        for br in params.get("conditions", []):
+            gcfg = br.get("guard", br.get("cond"))
+            acts = br.get("actions", [])
+            acts = acts if isinstance(acts, list) else [acts]
+            branches.append(Rec(guard=guard_rec(GuardDefinition(gcfg) if gcfg is not None else None, gn),
+                                acts=[action_rec(ActionDefinition(x), out_tag, gn) for x in acts]))
+        return Rec(kind="choose", name=a.type, arg=branches)
     if canon == RAISE:
         ev = params.get("event")
         evt = ev if isinstance(ev, str) else (ev or {}).get("type", "?")
@@ -99,7 +138,8 @@ def fuel_of(machine) -> int:
 
 def export_machine(machine: MachineNode, ctl: Ctl, *, events: Optional[List[str]] = None,
                    out_tag=None, act_info: Optional[Dict[str, dict]] = None,
-                   extra_event_types: Optional[List[str]] = None) -> Rec:
+                   extra_event_types: Optional[List[str]] = None,
+                   intended_guards: Optional[Dict[str, Any]] = None) -> Rec:
     """Returns the definition record and fills ctl.tnames (id(transition) -> name)."""
     out_tag = out_tag or (lambda v: NONE if v is None else str(v))
     scratch = SyncInterpreter(machine)
@@ -123,10 +163,15 @@ def export_machine(machine: MachineNode, ctl: Ctl, *, events: Optional[List[str]
             node = scratch._resolve_target_state_node(t)
             tgt = node.id if node is not None else "UNRESOLVED"
         types.add(t.event)
+        g = guard_rec(t.guard_def, guard_names)
+        want = g
+        for a in t.actions:
+            if intended_guards is not None and a.type in intended_guards:
+                want = norm_guard(intended_guards[a.type])
         trans.append(Rec(
             name=name, src=src.id, bucket=bucket, key=t.event,
-            guard=guard_rec(t.guard_def, guard_names), tgt=tgt,
-            acts=[action_rec(a, out_tag) for a in t.actions],
+            guard=g, wantGuard=want, tgt=tgt,
+            acts=[action_rec(a, out_tag, guard_names) for a in t.actions],
             reenter=bool(t.reenter), forbidden=bool(t.forbidden),
         ))
         return idx
@@ -214,8 +259,8 @@ def export_machine(machine: MachineNode, ctl: Ctl, *, events: Optional[List[str]
         idRank=rank,
         idSegs={n.id: n.id.split(".") for n in nodes},
         pdesc={a.id: {n.id for n in nodes if n.id == a.id or n.id.startswith(a.id + ".")} for a in nodes},
-        entry={n.id: [action_rec(a, out_tag) for a in n.entry] for n in nodes},
-        exit={n.id: [action_rec(a, out_tag) for a in n.exit] for n in nodes},
+        entry={n.id: [action_rec(a, out_tag, guard_names) for a in n.entry] for n in nodes},
+        exit={n.id: [action_rec(a, out_tag, guard_names) for a in n.exit] for n in nodes},
         trans=trans,
         tix=tix,
         events=set(events),
@@ -225,7 +270,8 @@ def export_machine(machine: MachineNode, ctl: Ctl, *, events: Optional[List[str]
         entryEv=entry_ev,
         output={n.id: out_tag(n.output) for n in nodes},
         machineOutput=out_tag(getattr(machine, "machine_output", None)),
-        guards=set(guard_names),
+        # valuation keys: only guards that have an implementation can be given a value
+        guards={g for g in guard_names if g.split(":")[0] in machine.logic.guards},
         guardImpl=set(machine.logic.guards),
         actionImpl=user_actions,
         actInfo=_act_info(nodes, trans, act_info),
